@@ -30,6 +30,10 @@ def gen_session(rnd):
             if len(m) == 1:
                 lines.append(m[0]); stmts.append(m[0] + "\n")
             else:
+                if m[0].rstrip().endswith(":") and not any(ch in l for l in m for ch in "([{'\"") and rnd.random() < 0.4:
+                    # a line of white space only inside the block: ignored in a file and at the prompt alike (only a
+                    # totally empty line ends the statement)
+                    m = list(m); m.insert(rnd.randint(1, len(m)), rnd.choice(["    ", "\t", "  ", "        "]))
                 lines += m + [""]; stmts.append("\n".join(m) + "\n")
         elif r < 0.92:
             e = rnd.choice(ERRORS); lines.append(e); stmts.append(e + "\n")
@@ -143,7 +147,7 @@ def check(res):
     else: tie_bad = [sessions[i][0] for i in v]
     res.oblige("correspondence: prompts shown by repl.REPL = prompts of the model under the measured compiler verdicts, %d sessions (vm_compute)" % len(rows), tie_err is None and not tie_bad, tie_err or str(tie_bad[:2]))
     res.coverage.update(evaluations=len(sessions), distinct_nontrivial=nontrivial, programs=len(sessions),
-        rule="seeded sessions of 3-13 statements (simple statements, expression statements with echo, comments, compound statements and nested blocks, multi-line brackets incl. a blank line inside brackets, triple-quoted strings, erroneous statements: syntax and run-time errors) fed one physical line at a time with a blank line after each multi-line statement; compared: prompt after every line (vs the Coq model), echoes, stdout, number of compile-error reports, final session globals incl. _ (vs CPython running the statements one by one); non-trivial = the session contains a multi-line statement",
+        rule="seeded sessions of 3-13 statements (simple statements, expression statements with echo, comments, compound statements and nested blocks, multi-line brackets incl. a blank line inside brackets, lines of white space only inside blocks, triple-quoted strings, erroneous statements: syntax and run-time errors) fed one physical line at a time with a blank line after each multi-line statement; compared: prompt after every line (vs the Coq model), echoes, stdout, number of compile-error reports, final session globals incl. _ (vs CPython running the statements one by one); non-trivial = the session contains a multi-line statement",
         samples=[dict(lines=sessions[0][0], prompts=[x["prompt"] for x in impl[0]["lines"]], prints=[x["prints"] for x in impl[0]["lines"]])],
         distribution=dict(sessions=len(sessions)), oracle_disagreements=len(mism), modelled_not_verified=["py.Compile single-mode classification (measured, not modelled)", "vm.PrintExpr package variable"])
     if mism:
